@@ -156,6 +156,43 @@ func c03(r *Run) {
 		}
 	}
 
+	// a block parked in a buffer's caches has that buffer as its only owner: a list that takes the blocks of another buffer's
+	// list (append(x.caches, y.caches...)) must empty the source before it returns, or both buffers free them
+	for _, f := range w.Funcs {
+		for _, ins := range allIns(f) {
+			c, ok := ins.(*ssa.Call)
+			if !ok {
+				continue
+			}
+			bi, isB := c.Call.Value.(*ssa.Builtin)
+			if !isB || bi.Name() != "append" || len(c.Call.Args) != 2 {
+				continue
+			}
+			dstBase, isDst := loadOfField(c.Call.Args[0], "UnsafeLinkBuffer", "caches")
+			srcBase, isSrc := loadOfField(c.Call.Args[1], "UnsafeLinkBuffer", "caches")
+			if !isDst || !isSrc || dstBase == srcBase {
+				continue
+			}
+			srcPath := stablePath(c.Call.Args[1].(*ssa.UnOp).X)
+			cleared := func(i ssa.Instruction) bool {
+				st, ok := i.(*ssa.Store)
+				if !ok || stablePath(st.Addr) != srcPath {
+					return false
+				}
+				if isNilConst(st.Val) {
+					return true
+				}
+				sl, isSl := st.Val.(*ssa.Slice)
+				if !isSl || sl.High == nil {
+					return false
+				}
+				k, okc := constInt(sl.High)
+				return okc && k == 0
+			}
+			r.mustPass("C03.R2:cached-blocks-have-one-owner:"+w.FnName(f), "when one buffer's cache list takes over the blocks of another's, the source list is emptied before the function returns: a block listed by two buffers goes back to the pool twice (and the second time it may already be someone else's)", f, ins, []Start{After(ins)}, cleared, nil, nil, "source caches cleared on every path after the append")
+		}
+	}
+
 	// the ownership flags live in node.mode: it is written only by the flag helpers and where a node is (re)initialised from
 	// the pool - nothing else resets it (a discarded caller-memory node must stay unmanaged)
 	for _, f := range w.Funcs {
